@@ -743,7 +743,10 @@ class ResolutionMonitor(object):
             if age < timeout - EPS:
                 self.report("C07", "timeout-too-early", "datagram seq %d timed out after %.4fs, message timeout is %.3fs" % (seq, age, timeout))
             slack = e.conn.send_interval + 2 * self.dt * (1 + self.world.jitter) + EPS
-            if age > timeout + slack and not rec.get("named"):
+            # (a half-open server-side connection is only looked after while the server loop runs: the idle loop sleeps until
+            #  a datagram arrives - lateness is judged for connections the loop is driving)
+            driven = e.role == "client" or w.ctxt.connections.get(getattr(e.conn, "addr", None)) is e.conn
+            if age > timeout + slack and not rec.get("named") and driven:
                 # late detection is only judged at the tick hook (outages of ticks do not exist here)
                 self.report("C07", "timeout-too-late", "datagram seq %d timed out after %.4fs (> %.3f + %.4f)" % (seq, age, timeout, slack))
             if rec.get("named"):
@@ -813,7 +816,7 @@ class ResolutionMonitor(object):
                         st.assembled, st.acked, st.timeouts, len(conn.pending_acks)))
             if not e.pending:
                 continue
-            driven = e.role == "server" and conn.addr in world.ctxt.connections or (e.role == "client" and getattr(e, "driven", True))
+            driven = e.role == "server" and world.ctxt.connections.get(conn.addr) is conn or (e.role == "client" and getattr(e, "driven", True))
             if not driven:
                 continue
             limit = conn.outgoing_timeout + conn.send_interval + 3 * self.dt * (1 + world.jitter) + EPS
